@@ -190,4 +190,24 @@ def pruneV : Val → Ty → Option Val
     | _, _ => none
   | _, _ => none
 
+def isCase : Node → Bool | .case _ _ => true | _ => false
+
+/-- the anti-DoS conditions libsimplicity checks (all checks on), evaluated on a tracker record:
+every selected node's identity executed, both sides of every selected case identity taken -/
+def antiDosOK (p : Plan) (reach : Array Bool) (ids : Nat → Nat) (tr : Trace) : Bool :=
+  (List.range p.size).all fun i =>
+    !(reach.getD i false) ||
+      (tr.nodes.contains (ids i) &&
+        (!(isCase (p.getD i .unit)) ||
+          (tr.sides.contains (ids i, false) && tr.sides.contains (ids i, true))))
+
+/-- the witness bits of node `j` after pruning: decode the original bits at the original target
+type, prune the value to the new target type, encode compactly (what the `Finalizer` of `prune`
+does for every witness node it keeps) -/
+def pruneWit (wit : Nat → Option (List Bool)) (arr a1 : Array (Ty × Ty)) (j : Nat) : Option (List Bool) := do
+  let bits ← wit j
+  let v ← valOfCompact (arr.getD j (.one, .one)).2 bits
+  let w ← pruneV v (a1.getD j (.one, .one)).2
+  pure (compact w)
+
 end Prog
